@@ -24,6 +24,12 @@ pub struct Response<Body> {
 impl<Body> Response<Body> {
     /// Create a new instance.
     pub(crate) async fn new(mut res: super::ResponseAsync) -> crate::Result<Response<Vec<u8>>> {
+        // Taking the body makes http-types add a default `content-type` header when there is
+        // none, so the headers are copied first: they must be the ones the shell reported
+        let headers: Headers = {
+            let headers: &Headers = res.as_ref();
+            headers.clone()
+        };
         let body = res.body_bytes().await?;
         let status = res.status();
 
@@ -34,9 +40,6 @@ impl<Body> Response<Body> {
                 body: Some(body),
             });
         }
-
-        let headers: &Headers = res.as_ref();
-        let headers = headers.clone();
 
         Ok(Response {
             status: res.status(),
